@@ -14,7 +14,13 @@ pub struct Folded<S: State> {
 impl<S: State> Folded<S> {
     pub(super) fn from_spectrum(spectrum: &Spectrum<S>) -> Self {
         let n = spectrum.elements();
-        let total_count = spectrum.shape().iter().sum::<usize>() - spectrum.shape().len();
+        // Sum of the per-axis maximum counts; saturating so that an (empty) spectrum with an axis of
+        // length zero folds to an empty spectrum rather than underflowing
+        let total_count = spectrum
+            .shape()
+            .iter()
+            .map(|n| n.saturating_sub(1))
+            .sum::<usize>();
 
         // In general, this point divides the folding line. Since we are folding onto the "upper"
         // part of the array, we want to fold anything "below" it onto something "above" it.
